@@ -82,6 +82,9 @@ def _case(draw):
         for sym in draw(st.lists(st.sampled_from(M.GAS_ELEMENTS), min_size=1, max_size=4, unique=True)):
             for q in draw(st.lists(st.sampled_from([0, 1, 2, -1]), min_size=1, max_size=3, unique=True)):
                 extra.append({"k": "mol", "t": [[sym, 1]], "q": q, "s": False, "l": ""})
+        if any(sp["k"] == "grain" for sp in pool) and not any(sp.get("s") for sp in pool) and draw(st.integers(0, 1)) == 0:
+            # dust of a second size group next to group 0 (GRAIN0, GRAIN1): grains are tracked as "elements" too
+            extra.append({"k": "grain", "g": 1, "q": 0})
         seen = {M.identity(s) for s in pool}
         for sp in extra:
             if M.identity(sp) not in seen or sp.get("x"):
@@ -248,7 +251,9 @@ def check_case(case, tier):
         feats.add("double-electron-spelling")
     if mixed_grain and any(pool[i]["k"] == "grain" for i in present):
         feats.add("double-grain-spelling")
-    suffix = "/" + sorted(f for f in feats if f.startswith(("excited", "double-grain")))[0] if any(f.startswith(("excited", "double-grain")) for f in feats) else ""
+    if len({pool[i].get("g", 0) for i in present if pool[i]["k"] == "grain"}) >= 2:
+        feats.add("multi-group-grains")
+    suffix = "/" + sorted(f for f in feats if f.startswith(("excited", "double-grain", "multi-group")))[0] if any(f.startswith(("excited", "double-grain", "multi-group")) for f in feats) else ""
     with N.Scratch() as d:
         try:
             net = make_network(case, reacs, names, kw)
@@ -274,7 +279,8 @@ def check_case(case, tier):
                 namesg = [n for n, _ in group]
                 if len(set(namesg)) != len(namesg):
                     dup = sorted({n for n in namesg if namesg.count(n) > 1})
-                    failures.append((f"index/duplicate-identifier/{what}{suffix}", f"{method}: {dup[:3]} defined more than once"))
+                    sfx = "/multi-group-grains" if what == "elements" and "multi-group-grains" in feats and all("GRAIN" in n for n in dup) else suffix
+                    failures.append((f"index/duplicate-identifier/{what}{sfx}", f"{method}: {dup[:3]} defined more than once"))
                     continue
                 vals = sorted(int(v) for _, v in group)
                 n_decl = proj.ints.get(count_macro)
